@@ -349,6 +349,31 @@ func hostilePrograms() []hostile {
 			return true
 		}},
 	)
+	// fonts with missing, short or wrongly typed entries, and everything the
+	// readers fall back to in those cases, overwritten by the caller afterwards
+	hs = append(hs, hostile{"fonts with missing or odd Encoding / FontMatrix / Private entries read, the results overwritten", func() bool {
+		encStart := strings.Index(font, "/Encoding 256 array")
+		encEnd := strings.Index(font, "readonly def\n") + len("readonly def\n")
+		variants := []string{
+			font[:encStart] + font[encEnd:],                                      // no Encoding at all
+			font[:encStart] + "/Encoding 10 array def\n" + font[encEnd:],        // short array
+			font[:encStart] + "/Encoding 5 def\n" + font[encEnd:],               // not an array
+			font[:encStart] + "/Encoding StandardEncoding def\n" + font[encEnd:], // the standard one by name
+			font[:encStart] + "/Encoding 256 array def\n" + font[encEnd:],       // all null
+			strings.Replace(font, "/FontMatrix [0.001 0 0 0.001 0 0] def\n", "", 1),
+			strings.Replace(font, "/FontMatrix [0.001 0 0 0.001 0 0] def\n", "/FontMatrix [0 0 0 0 0 0] def\n", 1),
+			strings.Replace(font, "/BlueValues [-10 0 700 710] def\n", "", 1),
+			strings.Replace(font, "/FontInfo 11 dict dup begin", "/FontInfoX 11 dict dup begin", 1),
+		}
+		for _, v := range variants {
+			if f, err := type1.Read(strings.NewReader(v)); err == nil {
+				f.Write(&bytes.Buffer{}, nil)
+				scribbleAll(f.GlyphList(), f.BuiltinEncoding())
+				scribbleAll(f)
+			}
+		}
+		return true
+	}})
 	// everything the library hands to its caller is the caller's: results of every
 	// reader, of the query and look-up functions, and the exported state of an
 	// interpreter are overwritten through the Go API (reflection walk over slices
